@@ -21,7 +21,7 @@ def main():
     if stored:
         out = os.path.join(V, "seeded", f"harmless_{area}_{'r' + rnd if rnd else ''}{hn}")
     patch = os.path.join(out, "patch.diff")
-    copy = f"/tmp/refrepo{rnd}_{area}_{hn}"
+    copy = f"/tmp/refrepo{rnd}_{area}_{hn}_{os.getpid()}"
     shutil.rmtree(copy, ignore_errors=True)
     sh(["rsync", "-a", "--exclude", "target", "--exclude", ".git", "/repo/", copy + "/"])
     rc, o = sh(f"patch -p1 -s < {patch}", cwd=copy)
